@@ -181,9 +181,9 @@ def install_cli(reg):
 # ------------------------------------------------------------ termination --
 TERM_READERS = ("_read_byte", "_read_bytes", "_read_number", "_read_uint32", "_read_uint64", "read")
 # loops whose termination argument is outside the rules of pyvc/term.py: reported as NOT decided (never counted as proved)
-TERM_UNPROVEN = {
-    ("pdf_extractor.py", "_TableExtractor._extract", 0),                      # 125-line line-classifier: more than 4000 paths per iteration
-}
+TERM_UNPROVEN = set()
+# loops proved by the advance rule: index stores are `+= k` or the next index returned by a contracted callee
+TERM_ADVANCERS = {("pdf_extractor.py", "_TableExtractor._extract", 0): {"_extract_word_date_header"}}
 
 
 def _term_files(repo=None):
@@ -200,7 +200,7 @@ def _term_files(repo=None):
 def _make_term(rel):
     def run(repo, tier):
         from pyvc import term
-        obls, listed = term.termination_obligations("C01", repo, [rel], readers=TERM_READERS, unproven_ok=TERM_UNPROVEN)
+        obls, listed = term.termination_obligations("C01", repo, [rel], readers=TERM_READERS, unproven_ok=TERM_UNPROVEN, advancers=TERM_ADVANCERS)
         obls += term.for_loop_obligations("C01", repo, [rel])
         return {"obligations": obls, "not_decided": listed}
     run.__name__ = f"termination[{rel.split('/')[-1]}]"
